@@ -38,7 +38,7 @@ def rule_TR1(rep, prog, ex, q, ts):
             continue
         rep.saw(t.fn)
         if t.kind == "store":
-            ok = t.fn.name in PLAIN_STORE_OK and t.order == "na" or t.order != "na"
+            ok = (t.fn.name in PLAIN_STORE_OK or t.origin in PLAIN_STORE_OK) and t.order == "na" or t.order != "na"
             rep.require(r2, ok, t.where, t.fn.name, "plain-store:%s" % t.origin,
                         "non-atomic store to dq_state in %s which is not a classified constructor/destructor" % t.fn.name)
             continue
@@ -94,7 +94,7 @@ def rule_TR1(rep, prog, ex, q, ts):
                     "%s: the give-up taken when DIRTY is observed does not clear DIRTY with an acquire RMW before the "
                     "drainer looks at the queue again" % t.site.origin,
                     sample={"site": t.site.origin, "giveup": "DIRTY seen -> %s" % (found.d["rmw"] + " " + found.d["ord"] if found else None)})
-        if found is not None and t.site.origin == "_dispatch_queue_drain_try_unlock":
+        if found is not None and t.site.origin == "_dispatch_queue_drain_try_unlock" and fn.name == t.site.origin:
             # the function must return false on this path
             res = paths.walk(fn, found, lambda i: False)
             for kind, inst, ctx, path in res:
@@ -386,6 +386,26 @@ def run(rep, tier="quick", srcdir=None, only=None):
         from . import C05
         p2 = ir.Program(build.facts_for(["shims/lock"], srcdir=srcdir))
         C05.rule_WR3(rep, p2)
+
+def run_thorough(rep, srcdir=None, only=None):
+    """cross-check: the universal (for-all-transitions) rules are re-evaluated on the module built WITH the always-inliner, where every
+    inlined copy of a state transition appears in its caller's context (constant arguments folded, caller guards visible)"""
+    if only:
+        return
+    facts = build.facts_for("all", mode="all", srcdir=srcdir)
+    prog = ir.Program(facts)
+    q = Q(srcdir)
+    ex = trans.Extractor(prog, "thorough")
+    ex.compute_argbits()
+    ts = []
+    for fn in sorted(prog.all_functions(), key=lambda f: f.name):
+        ts.extend(ex.transitions(fn, DQ_STATE, plain=True))
+    rep.extra["inlined_form_transitions"] = len(ts)
+    n0 = len(rep.findings)
+    sub = report_sub(rep)
+    rule_TR1(sub, prog, ex, q, ts)
+    merge_sub(rep, sub, 'C01-TR1i', 'C01-TR1 / TR1w re-evaluated on the fully inlined modules (every inlined copy in its caller\'s context)')
+
 
 MANIFEST = {
     "technique": "atomic state-word transition extraction over LLVM IR (bit-level abstract domain) + must-pass-through / dominance rules on the CFG",
